@@ -53,7 +53,11 @@ def tlc_cmd(module, cfg, workers=8, metadir=None, simulate=None, seed=None, cove
     if heap:
         jopts += " -Xmx%s" % heap
     env = dict(os.environ, JAVA_TOOL_OPTIONS=jopts)
-    cmd = ["tlc", "-workers", str(workers), "-metadir", metadir, "-cleanup", "-noGenerateSpecTE"]
+    # java is called directly (not through the `tlc` wrapper) so that -Xss also sizes the main
+    # thread, which evaluates ASSUMEs and initial states (JAVA_TOOL_OPTIONS reaches new threads only)
+    cmd = ["java", "-Xss1g", "-XX:+UseParallelGC", "-cp",
+           "/opt/veriftools/tla/tla2tools.jar:/opt/veriftools/tla/CommunityModules-deps.jar", "tlc2.TLC",
+           "-workers", str(workers), "-metadir", metadir, "-cleanup", "-noGenerateSpecTE"]
     if coverage:
         cmd += ["-coverage", "1"]
     if simulate:
@@ -83,7 +87,7 @@ class TlcResult:
         self.coverage = []
 
 
-def run_tlc(tag, module, cfg, sink=None, timeout=1800, env_extra=None, **kw):
+def run_tlc(tag, module, cfg, sink=None, timeout=1800, env_extra=None, keep_tmp=False, **kw):
     """Runs TLC; REPLAY lines go (unescaped) to sink.write, the rest to a log."""
     os.makedirs(os.path.join(WORK, "tmp"), exist_ok=True)
     metadir = os.path.join(WORK, "meta_" + tag)
@@ -120,7 +124,8 @@ def run_tlc(tag, module, cfg, sink=None, timeout=1800, env_extra=None, **kw):
     res.exit = p.wait()
     res.wall = time.time() - t0
     shutil.rmtree(metadir, ignore_errors=True)
-    shutil.rmtree(os.path.join(WORK, "tmp"), ignore_errors=True)
+    if not keep_tmp:
+        shutil.rmtree(os.path.join(WORK, "tmp"), ignore_errors=True)
     return res
 
 
@@ -276,7 +281,53 @@ class Check:
         return res
 
     # -- binding B
-    def trace_stage(self, name, gen_args, module, cfg, timeout=1800, heap="4g", trace_path=None, gen=True):
+    def _run_split(self, tag, module, cfg, trace_path, split, boundary, timeout, heap):
+        """Validates a long trace as `split` independent chunks in parallel TLC runs.  Chunks start at
+        a `boundary` event (a new behaviour of the trace spec) or, with boundary None, at any event."""
+        with open(trace_path) as f:
+            lines = [x for x in f if x.strip()]
+        if lines and '"End"' in lines[-1][:40]:
+            lines = lines[:-1]
+        target = max(1, len(lines) // split)
+        chunks, cur = [], []
+        for ln in lines:
+            if len(cur) >= target and len(chunks) < split - 1 and (boundary is None or ('"e":"%s"' % boundary) in ln or ('"e": "%s"' % boundary) in ln):
+                chunks.append(cur)
+                cur = []
+            cur.append(ln)
+        chunks.append(cur)
+        paths = []
+        for i, ch in enumerate(chunks):
+            pth = "%s.part%d" % (trace_path, i)
+            with open(pth, "w") as f:
+                f.writelines(ch)
+                f.write('{"e":"End"}\n')
+            paths.append(pth)
+        results = [None] * len(paths)
+        def work(i):
+            results[i] = run_tlc("%s_p%d" % (tag, i), module, cfg, sink=None, workers=1, timeout=timeout, deque=True,
+                                 heap=heap, env_extra={"TRACE": paths[i]}, keep_tmp=True)
+        ths = [threading.Thread(target=work, args=(i,)) for i in range(len(paths))]
+        for t in ths:
+            t.start()
+        for t in ths:
+            t.join()
+        shutil.rmtree(os.path.join(WORK, "tmp"), ignore_errors=True)
+        # the first failing chunk decides; otherwise aggregate
+        agg = results[0]
+        bad = None
+        for i, r in enumerate(results):
+            if r.exit != 0 and bad is None:
+                bad = i
+        if bad is not None:
+            return results[bad], paths[bad]
+        agg.generated = sum(r.generated for r in results)
+        agg.distinct = sum(r.distinct for r in results)
+        agg.wall = max(r.wall for r in results)
+        return agg, trace_path
+
+    def trace_stage(self, name, gen_args, module, cfg, timeout=1800, heap="4g", trace_path=None, gen=True, split=1,
+                    boundary="Reset"):
         """harness records ndjson traces of the real code; the trace spec must accept them."""
         tag = "%s_%s_%s" % (self.prop, self.tier, name)
         if trace_path is None:
@@ -291,8 +342,11 @@ class Check:
             for line in r.stdout.splitlines():
                 if line.startswith("TRACEINFO "):
                     info = json.loads(line[10:])
-        res = run_tlc(tag, module, cfg, sink=None, workers=1, timeout=timeout, deque=True, heap=heap,
-                      env_extra={"TRACE": trace_path})
+        if split > 1:
+            res, trace_path = self._run_split(tag, module, cfg, trace_path, split, boundary, timeout, heap)
+        else:
+            res = run_tlc(tag, module, cfg, sink=None, workers=1, timeout=timeout, deque=True, heap=heap,
+                          env_extra={"TRACE": trace_path})
         rejected = res.exit in (10, 12, 13)
         self._account_tlc(name, res, exhaustive=False, trace=True)
         self.stage_info[-1].update({k: v for k, v in info.items() if k != "samples"})
